@@ -509,14 +509,20 @@ def _sccs(nodes, succ):
 
 
 class Facts:
-    def __init__(self, path):
-        with open(path) as f:
-            text = f.read()
-        import canon
-        text, self.renamed = canon.canonicalise(text)      # {actual path: canonical path} (empty on the pinned layout)
-        self.j = json.loads(text)
-        import erase
-        self.j, self.erased = erase.erase(self.j)          # {newtype over an integer: the integer} (empty on the pinned tree)
+    def __init__(self, path, j=None, like=None):
+        if j is not None:
+            # an already canonicalised / erased fact tree that was rewritten (openho.normalise)
+            self.j = j
+            self.renamed = like.renamed if like is not None else {}
+            self.erased = like.erased if like is not None else {}
+        else:
+            with open(path) as f:
+                text = f.read()
+            import canon
+            text, self.renamed = canon.canonicalise(text)      # {actual path: canonical path} (empty on the pinned layout)
+            self.j = json.loads(text)
+            import erase
+            self.j, self.erased = erase.erase(self.j)          # {newtype over an integer: the integer} (empty on the pinned tree)
         self.crate = self.j['crate']
         self.bodies = [Body(b, self) for b in self.j['bodies']]
         self.by_id = {b.id: b for b in self.bodies}
